@@ -31,8 +31,11 @@ def plan(ctx):
     obs.append(Obligation("node.lambda_reentry", "xh", "c17", "lambda_reentry", timeout=T * 2,
                           bounds="closure re-entered 1 / 3 / 60 / 70 / 130 / 260 deep, ending normally or with an error at the bottom, 1..3 times in a row (finite domain, native)",
                           desc="the LambdaOp node (a cached tree keeps it) has the same field values before and after calls of its closure, and a later shallow call still works"))
+    obs.append(Obligation("cache.ast_names_identity", "xh", "c17", "ast_names_identity", timeout=T * 2,
+                          bounds="5 definitions x 4 uses, budget 5..40 (finite domain, native)",
+                          desc="two ast_names entries parsed separately from the same text: evaluation (values, aliasing of what lands in the host's mapping, ops charged) is the same with and without the cache"))
     obs.append(Obligation("cache.pairs", "xh", "c17", "pair_sequence", timeout=T * 4,
-                          bounds="29 pairs of texts (incl. very deep expressions, texts differing only in a line break) (near-duplicates that differ where it matters: blank runs inside %names% and strings, case, comments; failing texts with open brackets / illegal characters followed by multi-line texts; names that look like bookkeeping keys); either order, parse or eval, repeated or not; cache pre-warmed with none / one / both, storing or dropping (all symbolic; bodies run natively)",
+                          bounds="32 pairs of texts (incl. very deep expressions, texts differing only in a line break) (near-duplicates that differ where it matters: blank runs inside %names% and strings, case, comments; failing texts with open brackets / illegal characters followed by multi-line texts; names that look like bookkeeping keys); either order, parse or eval, repeated or not; cache pre-warmed with none / one / both, storing or dropping (all symbolic; bodies run natively)",
                           desc="cached parser == uncached parser call by call; every string key left in the host's mapping (incl. by the constructor) behaves as a source text the same with and without the cache"))
     return {
         "obligations": obs, "uncovered": uncovered,
